@@ -205,6 +205,7 @@ var profiles = []profile{
 	{name: "fragmess", maxConns: 2, noSynFin: true, perturb: 3, allowFrag: true, fragMess: true, allowDup: true},
 	{name: "sections", maxConns: 3, noSynFin: true, perturb: 2, allowDup: true, allowSwap: true, allowOmit: true, allowFrag: true, sections: true},
 	{name: "snap", maxConns: 3, noSynFin: true, perturb: 3, snap: true, allowDup: true, allowSwap: true},
+	{name: "longq", maxConns: 1},
 	{name: "big", maxConns: 2, noSynFin: true, perturb: 3, allowDup: true, allowSwap: true, allowOmit: true, big: true},
 }
 
@@ -230,7 +231,7 @@ func main() {
 
 	// per shard (lib/props/C19.json: 4 shards quick, 8 shards thorough)
 	counts := map[string]int{"plain": 10, "files": 40, "nosynfin": 40, "dup": 40, "swap": 40, "omit": 50, "frag": 40,
-		"mixed": 100, "edge": 60, "fragmess": 40, "sections": 40, "snap": 60, "big": 2}
+		"mixed": 100, "edge": 60, "fragmess": 40, "sections": 40, "snap": 60, "longq": 1, "big": 2}
 	if cfg.Thorough() {
 		for k := range counts {
 			counts[k] *= 10
@@ -254,7 +255,12 @@ func main() {
 	defer flush()
 	for _, pf := range profiles {
 		for i := 0; i < counts[pf.name]; i++ {
-			k := genKase(r.Fork(), pf)
+			var k *kase
+			if pf.name == "longq" {
+				k = genLongQueue(r.Fork())
+			} else {
+				k = genKase(r.Fork(), pf)
+			}
 			// round trip of the op text: the case that runs is the case a replay would run
 			k2, err := parseKase(k.opText())
 			if err != nil {
@@ -265,7 +271,7 @@ func main() {
 				class = pf.name
 			}
 			batch = append(batch, pending{k: k2, class: class})
-			if len(batch) >= 64 || pf.big {
+			if len(batch) >= 64 || pf.big || pf.name == "longq" {
 				flush()
 			}
 			o.Stat("profile_"+pf.name, 1)
